@@ -44,21 +44,45 @@ theorem C12_stored_values_immune (cfg : Cfg) (hT : Total cfg) (tables : List (Na
   | nil => rfl
   | cons r rs ih => simp
 
-/-- **Immune to later mutation, with references.**  In the heap model (`Model/CollectHeap.lean`: a mutable list is an
-    object with an address, attributes hold references, `model.a = model.b` makes two names for one object,
-    `model.a.append(x)` mutates the object in place, `collect` stores `deepcopy(getattr(model, a, None))`): after every
-    history — whatever is rebound, aliased or mutated in place after a collect, through whichever name — reading the
-    stored column at the end shows, entry by entry, exactly what the reporter showed at the moment of its collect.
-    This is what justifies treating collected model-level values as plain values in `Model/Collect.lean`.  It depends
-    on the copy: with `collect` storing the value itself the statement is false (refuted in the examples below).
-    Limits (review 3, M7): the objects of this heap are flat lists of ints and there is one string reporter, so a deep
-    and a shallow copy are the same function here — the theorem excludes storing the reference, it does not tell
-    `deepcopy` from `copy.copy`; nested values are compared on the real code only (oracle, 1-tuple-wrapped lists). -/
-theorem C12_deepcopy_makes_stored_values_immune (ops : List CollectHeap.HOp) :
-    (CollectHeap.runH true CollectHeap.empty ops).col.map
-        (CollectHeap.resolve (CollectHeap.runH true CollectHeap.empty ops).heap) =
-      CollectHeap.seen true CollectHeap.empty ops := by
-  simpa [CollectHeap.empty] using CollectHeap.run_deep CollectHeap.empty ops CollectHeap.inv_empty
+/-- **Immune to later mutation, with references, to any depth** (review 3, M7).  In the heap model
+    (`Model/CollectHeap.lean`: a mutable list is an object with an identity whose items are `None`, ints or REFERENCES to
+    other objects — `[[1], [2]]` is three objects, an object may contain itself —; attributes hold references;
+    `model.a = model.b[p…]` gives an object one more name; `model.a[p…].append(x)`, `.append(model.b[q…])`, `.pop()` mutate
+    the addressed object in place, at any nesting level and through whichever name; `collect` stores
+    `deepcopy(getattr(model, a, None))` = fresh identities for everything reachable, same shape): after EVERY history —
+    whatever is rebound, aliased or mutated after a collect — reading the stored column at the end shows, entry by
+    entry and down to EVERY depth `d` (so: the whole tree the entry denotes; `read d` cuts below depth `d` only because an
+    object containing itself denotes an infinite tree), exactly what the reporter showed at the moment of its collect.
+    This is what justifies treating collected model-level values as plain immutable values in `Model/Collect.lean` and in
+    the driver.  It depends on the copy being deep: for `Copy.shallow` (`list(v)` / `copy.copy(v)`) and `Copy.alias`
+    (the reference is stored) the statement is false — `C12_shallow_copy_not_immune`, `C12_stored_reference_not_immune`.
+    One string reporter; the other three reporter forms hand their value to the same `deepcopy`. -/
+theorem C12_deepcopy_makes_stored_values_immune (ops : List CollectHeap.HOp) (d : Nat) :
+    CollectHeap.stored .deep d ops = CollectHeap.seen .deep d CollectHeap.empty ops := by
+  simpa [CollectHeap.stored, CollectHeap.empty] using
+    CollectHeap.run_deep (fun _ => False) CollectHeap.empty ops CollectHeap.inv_empty d
+
+/-- the depth-2 history used below: `model.x2 = [model.x0, model.x1] = [[1], [2]]; collect; model.x2[0].append(5)` -/
+def heapInnerOps : List CollectHeap.HOp :=
+  [.setNew 0 [1], .setNew 1 [2], .setNew 2 [], .appRef 2 [] 0 [], .appRef 2 [] 1 [], .collect 2, .app 2 [0] 5]
+
+/-- **A shallow copy is not enough**: a collector storing `list(v)` shows the inner append made after the collect —
+    the stored entry reads `[[1, 5], [2]]` where the reporter showed `[[1], [2]]`.  (At depth 1 — the outer list —
+    the shallow copy is immune; the flat heap of the earlier statement could not see the difference.) -/
+theorem C12_shallow_copy_not_immune :
+    ∃ ops d, CollectHeap.stored .shallow d ops ≠ CollectHeap.seen .shallow d CollectHeap.empty ops := by
+  refine ⟨heapInnerOps, 2, ?_⟩
+  have h1 : CollectHeap.stored .shallow 2 heapInnerOps = [.node [.node [.int 1, .int 5], .node [.int 2]]] := by rfl
+  have h2 : CollectHeap.seen .shallow 2 CollectHeap.empty heapInnerOps = [.node [.node [.int 1], .node [.int 2]]] := by rfl
+  rw [h1, h2]; simp
+
+/-- **Storing the reference is not enough** either (already for a flat value: `model.x0 = [1]; collect; model.x0.append(5)`) -/
+theorem C12_stored_reference_not_immune :
+    ∃ ops d, CollectHeap.stored .alias d ops ≠ CollectHeap.seen .alias d CollectHeap.empty ops := by
+  refine ⟨[.setNew 0 [1], .collect 0, .app 0 [] 5], 1, ?_⟩
+  have h1 : CollectHeap.stored .alias 1 [.setNew 0 [1], .collect 0, .app 0 [] 5] = [.node [.int 1, .int 5]] := by rfl
+  have h2 : CollectHeap.seen .alias 1 CollectHeap.empty [.setNew 0 [1], .collect 0, .app 0 [] 5] = [.node [.int 1]] := by rfl
+  rw [h1, h2]; simp
 
 /-- A collect at which no model reporter and no agent reporter raises records, under the current step, exactly
     one row per agent registered at that moment, in registry order: `(steps, unique_id, the values the agent
@@ -501,18 +525,39 @@ example : (storedSnaps rxCfg (init rxCfg []) rxOps).map (fun sn => (mOk rxCfg sn
     [(false, false), (true, false), (true, true)] := by decide
 /-! a plain function that raises at the trial call of the first collect: RuntimeError, nothing stored -/
 example : (collect { rxCfg with mreps := [.fn (needM 0), .attr 5] } (init rxCfg [])).2 = some .runtime := by decide
-/-! references: `model.x0 = [1]; model.x1 = model.x0; collect; model.x1.append(5); collect` — with deepcopy the first
-    stored entry still reads `[1]`; storing the value itself (`deep := false`) every stored entry is the live object
-    and reads `[1, 5]`: the immunity statement is false for the aliasing collector -/
+/-! references, depth 2: `x0 = [1]; x1 = [2]; x2 = [x0, x1]; collect; x2[0].append(5); x0.append(7)` (the same inner
+    object through its other name) `; collect; x2.append(9); x2[1].pop(); x0 = x1; x2 = 3; collect`.  With deepcopy every
+    stored entry reads what the reporter showed at its collect (`[[1], [2]]`, then `[[1, 5, 7], [2]]`, then `3`); the
+    shallow copy keeps the outer list (no `9`) but shows every inner change; the stored reference shows everything -/
 open CollectHeap in
-def hpOps : List HOp := [.setNew 0 [1], .alias 1 0, .collect 0, .app 1 5, .collect 0, .setInt 0 3, .collect 0]
+def hpOps : List HOp :=
+  [.setNew 0 [1], .setNew 1 [2], .setNew 2 [], .appRef 2 [] 0 [], .appRef 2 [] 1 [], .collect 2, .app 2 [0] 5, .app 0 [] 7,
+   .collect 2, .app 2 [] 9, .pop 2 [1], .bind 0 1 [], .setInt 2 3, .collect 2]
 open CollectHeap in
-example : (runH true empty hpOps).col.map (resolve (runH true empty hpOps).heap) = [.list [1], .list [1, 5], .int 3] := by decide
+example : stored .deep 2 hpOps =
+    [.node [.node [.int 1], .node [.int 2]], .node [.node [.int 1, .int 5, .int 7], .node [.int 2]], .int 3] := by rfl
 open CollectHeap in
-example : seen true empty hpOps = [.list [1], .list [1, 5], .int 3] := by decide
+example : seen .deep 2 empty hpOps =
+    [.node [.node [.int 1], .node [.int 2]], .node [.node [.int 1, .int 5, .int 7], .node [.int 2]], .int 3] := by rfl
 open CollectHeap in
-example : (runH false empty hpOps).col.map (resolve (runH false empty hpOps).heap) = [.list [1, 5], .list [1, 5], .int 3] ∧
-    (runH false empty hpOps).col.map (resolve (runH false empty hpOps).heap) ≠ seen false empty hpOps := by decide
+example : stored .shallow 2 hpOps =
+    [.node [.node [.int 1, .int 5, .int 7], .node []], .node [.node [.int 1, .int 5, .int 7], .node []], .int 3] := by rfl
+open CollectHeap in
+example : stored .alias 2 hpOps =
+    [.node [.node [.int 1, .int 5, .int 7], .node [], .int 9], .node [.node [.int 1, .int 5, .int 7], .node [], .int 9], .int 3] := by rfl
+/-! the live objects after the history are the original ones: the copy did not disturb them (`x0` is `x1` now) -/
+open CollectHeap in
+example : (read 1 (runH .deep empty hpOps).heap (getH (runH .deep empty hpOps).attrs 0),
+    read 1 (runH .deep empty hpOps).heap (getH (runH .deep empty hpOps).attrs 1)) = (.node [], .node []) := by rfl
+/-! sharing and cycles survive the copy (deepcopy's memo): `x0 = [1]; x0.append(x0); collect; x0[1][1].append(4)` — the stored
+    entry keeps reading `[1, [1, [1, …]]]` to every depth, the live object reads `[1, <itself>, 4]` -/
+open CollectHeap in
+def cyOps : List HOp := [.setNew 0 [1], .appRef 0 [] 0 [], .collect 0, .app 0 [1, 1] 4]
+open CollectHeap in
+example : stored .deep 3 cyOps = [.node [.int 1, .node [.int 1, .node [.int 1, .cut]]]] := by rfl
+open CollectHeap in
+example : read 2 (runH .deep empty cyOps).heap (getH (runH .deep empty cyOps).attrs 0) =
+    .node [.int 1, .node [.int 1, .cut, .int 4], .int 4] := by rfl
 /-! `model.agents` reversed in place between creation and collect (classes 1 and 2 derive from 0; keys: class 1 with
     direct instances, base class 0 without): the agent rows and the rows of the base-class key follow the new order
     of `model.agents`, the rows of class 1 stay in creation order (`agents_by_type[1]`) -/
